@@ -43,6 +43,7 @@ POOL = {
 VERSION_SENSITIVE = {
     "vs_field_tab_literal": "x = 1\nprint(f'{len(\"\t\")}|{x}')\n",
     "vs_field_latin1_literal": "x = 1\nprint(f'{len(\"é\")}|{x}', f'{\"ü\" * 2}')\n",
+    "vs_field_wide_characters": "x = 1\nprint(f'{len(\"\u3000\u200b\u4e16\U0001f600\")}|{x}', f'{\"\u2028\" * 2!r}')\n",
     "vs_field_other_quote": "d = {'k': 1}\nprint(f\"{d['k']}|{d.get('z', 0)}\")\n",
     "vs_spec_tab_fill": "x = 5\nprint(f'{x:\t>4}|{x:é<3}|{x:{chr(48)}>3}')\n",
     "vs_literal_escapes": "x = 5\nprint(f'a\\tb{x}\\n\\\\{x!r}é\\x00')\n",
